@@ -40,6 +40,22 @@ type apiNode struct {
 	Alt       [][]*apiNode // formats of a probing group that are tried first and fail
 	RootArray bool
 	Buf       []byte
+
+	// hapi_ops.go
+	Form     int // how the reader is named: 0 width argument, 1 width and endian arguments, 2 width (and endian) in the name
+	E        int // 0 the decoder's endian, 1 big, 2 little
+	Try      int // 0 Field<reader>, 1 TryFieldScalar<reader>, 2 TryField<type>Fn over Try<reader>, 3 TryField<reader>
+	Signed   bool
+	Fails    bool // a Try reader or peek aimed past the end: the program catches the error
+	Add      int64
+	SymOn    bool
+	SymUint  bool
+	SymKey   uint64
+	Validate int
+	S        string
+	U        uint64
+	Len, Cnt int64
+	Body     []bodySpec
 }
 
 // expected value
@@ -55,6 +71,8 @@ type mval struct {
 	fillStart, fillLen  int64
 	kids                []*mval
 	u                   uint64
+	removed             bool   // taken out of its array again by Value.Remove (one per program)
+	val                 string // kind and value of a scalar leaf as the dump shows it (hapi_ops.go)
 }
 
 // one decoder view: a buffer, the offset of the view's origin in it, the
@@ -65,6 +83,8 @@ type mctx struct {
 	pos   int64
 	limit int64
 	cur   *mval
+	le    bool // the decoder's endian is little
+	noSet bool // the view works on a copy of a decoder (frames): the endian is not set here
 }
 
 type apiGen struct {
@@ -76,6 +96,9 @@ type apiGen struct {
 	names   int
 	probes  map[string]int
 	pastEnd bool // the position was moved past the end: the next operation adds an empty field there
+
+	removed      bool // the program has its one Remove
+	plainTryFail bool // the program has its one failing plain TryField<reader>
 }
 
 func (g *apiGen) name() string { g.names++; return fmt.Sprintf("f%d", g.names) }
@@ -147,6 +170,12 @@ func (g *apiGen) leaf(c *mctx) (*apiNode, bool) {
 	avail := c.limit - c.pos
 	if g.t.Intn(10) == 0 {
 		// a derived value: no bits of its own
+		if g.t.Intn(3) == 0 {
+			nd := &apiNode{Op: "valuestr", Name: g.name(), S: []string{"", "a", "derived text", "\x00\xff"}[g.t.Intn(4)]}
+			g.add(c, &mval{name: nd.Name, start: c.base + c.pos, length: 0, buf: c.buf, val: fmt.Sprintf("str=%x", nd.S), synthetic: true})
+			g.probes["synthetic_value_str"]++
+			return nd, true
+		}
 		nd := &apiNode{Op: "value", Name: g.name(), N: int64(g.t.Intn(1000))}
 		g.add(c, &mval{name: nd.Name, start: c.base + c.pos, length: 0, buf: c.buf, isUint: true, u: uint64(nd.N), synthetic: true})
 		g.probes["synthetic_value"]++
@@ -169,26 +198,28 @@ func (g *apiGen) leaf(c *mctx) (*apiNode, bool) {
 		return nd, true
 	}
 	if avail < g.gran {
+		if g.t.Intn(2) == 0 {
+			// a Try reader that finds (almost) nothing: caught, no field
+			return g.intField(c, true)
+		}
 		// nothing left for an integer: a zero-length raw field instead
 		nd := &apiNode{Op: "raw", Name: g.name(), N: 0}
 		g.add(c, &mval{name: nd.Name, start: c.base + c.pos, length: 0, buf: c.buf})
 		return nd, true
 	}
-	n, fails := g.size(avail, g.gran, 64)
-	if fails {
-		g.probes["op_past_end"]++
-		if n > 64 {
-			return &apiNode{Op: "raw", Name: g.name(), N: n}, false
+	switch k := g.t.Intn(16); {
+	case k == 7 && g.gran != 8:
+		return g.boolField(c)
+	case k == 8 || k == 9:
+		if nd := g.fltField(c); nd != nil {
+			return nd, true
 		}
-		return &apiNode{Op: "u", Name: g.name(), N: n}, false
+	case k >= 10 && k <= 12:
+		if nd, ok := g.strField(c); nd != nil {
+			return nd, ok
+		}
 	}
-	if n < 1 {
-		n = g.gran
-	}
-	nd := &apiNode{Op: "u", Name: g.name(), N: n}
-	g.add(c, &mval{name: nd.Name, start: c.base + c.pos, length: n, buf: c.buf, isUint: true, u: g.bitsAt(c.buf, c.base+c.pos, n)})
-	c.pos += n
-	return nd, true
+	return g.intField(c, false)
 }
 
 // nested runs a nested format decode over [start, start+length) of c's view.
@@ -223,7 +254,7 @@ func (g *apiGen) nested(c *mctx, nd *apiNode, start, length int64, fillGaps bool
 	var walk func(v *mval)
 	walk = func(v *mval) {
 		for _, k := range v.kids {
-			if k.isRoot {
+			if k.isRoot || k.removed {
 				continue
 			}
 			if e := k.start + k.length - (c.base + start); e > ext {
@@ -243,9 +274,43 @@ func (g *apiGen) nested(c *mctx, nd *apiNode, start, length int64, fillGaps bool
 func (g *apiGen) op(c *mctx, depth int) (*apiNode, bool) {
 	g.nodes++
 	avail := c.limit - c.pos
-	choice := g.t.Intn(20)
+	choice := g.t.Intn(29)
 	if depth >= 4 || g.nodes > 45 {
 		choice = 0
+	}
+	switch choice {
+	case 20, 21:
+		if c.noSet {
+			return g.query(c), true
+		}
+		nd := &apiNode{Op: "endian", E: 1 + g.t.Intn(2)}
+		if g.t.Intn(3) != 0 {
+			nd.E = 2
+		}
+		c.le = nd.E == 2
+		g.probes["endian_set"]++
+		return nd, true
+	case 22, 23:
+		return g.query(c), true
+	case 24:
+		return g.peek(c), true
+	case 25, 26:
+		return g.structArray(c)
+	case 27, 28:
+		// an element of the array being filled is taken out again (not the last one):
+		// the others close ranks, its bits belong to no field any more
+		if !c.cur.array || g.removed || len(c.cur.kids) < 2 {
+			choice = 0
+			break
+		}
+		g.removed = true
+		nd := &apiNode{Op: "remove", N: int64(g.t.Intn(len(c.cur.kids) - 1))}
+		c.cur.kids[nd.N].removed = true
+		g.probes["array_element_removed"]++
+		if c.cur.kids[nd.N].compound {
+			g.probes["array_element_removed_compound"]++
+		}
+		return nd, true
 	}
 	fn := func(nd *apiNode, sc *mctx) bool {
 		var ok bool
@@ -264,6 +329,10 @@ func (g *apiGen) op(c *mctx, depth int) (*apiNode, bool) {
 		g.add(c, v)
 		sc := *c
 		sc.cur = v
+		sc.noSet = false // a decoder of its own, the endian inherited
+		if c.le {
+			g.probes["endian_inherited_by_child"]++
+		}
 		ok := fn(nd, &sc)
 		c.pos = sc.pos
 		return nd, ok
@@ -283,7 +352,7 @@ func (g *apiGen) op(c *mctx, depth int) (*apiNode, bool) {
 		if first+n == c.limit {
 			g.probes["frame_ends_at_end"]++
 		}
-		sc := &mctx{buf: c.buf, base: c.base, pos: first, limit: first + n, cur: c.cur}
+		sc := &mctx{buf: c.buf, base: c.base, pos: first, limit: first + n, cur: c.cur, le: c.le, noSet: true}
 		ok := fn(nd, sc)
 		if !ok {
 			return nd, false
@@ -311,6 +380,7 @@ func (g *apiGen) op(c *mctx, depth int) (*apiNode, bool) {
 		sc := *c
 		sc.pos = target
 		ok := fn(nd, &sc)
+		c.le = sc.le // the functions of a seek run on the decoder itself
 		return nd, ok
 	case 13:
 		// skip forward
@@ -326,11 +396,14 @@ func (g *apiGen) op(c *mctx, depth int) (*apiNode, bool) {
 		if w > 64 {
 			w = 64
 		}
+		if c.le && w > 8 && w%8 != 0 {
+			w = 8
+		}
 		nd := &apiNode{Op: "loopu", Name: g.name(), N: w}
 		v := &mval{name: nd.Name, compound: true, array: true, start: c.base + c.pos, buf: c.buf}
 		g.add(c, v)
 		for c.limit-c.pos >= w {
-			v.kids = append(v.kids, &mval{name: "e", start: c.base + c.pos, length: w, buf: c.buf, isUint: true, u: g.bitsAt(c.buf, c.base+c.pos, w)})
+			v.kids = append(v.kids, &mval{name: "e", start: c.base + c.pos, length: w, buf: c.buf, isUint: true, u: g.uval(c.buf, c.base+c.pos, w, c.le)})
 			c.pos += w
 		}
 		if len(v.kids) == 0 {
@@ -412,7 +485,7 @@ func (g *apiGen) op(c *mctx, depth int) (*apiNode, bool) {
 		nd := &apiNode{Op: "structbuf", Name: g.name(), Buf: buf}
 		v := &mval{name: nd.Name, compound: true, isRoot: true, start: c.base + c.pos, buf: id}
 		g.add(c, v)
-		sc := &mctx{buf: id, base: 0, pos: 0, limit: total, cur: v}
+		sc := &mctx{buf: id, base: 0, pos: 0, limit: total, cur: v, le: c.le}
 		ok := fn(nd, sc)
 		g.probes["nested_buffer"]++
 		return nd, ok
@@ -531,6 +604,19 @@ func (v *mval) finish(tolerant bool) {
 	}
 }
 
+// strip takes the removed elements out (unless keep: the tree as it was before the Remove).
+func (v *mval) strip(keep bool) *mval {
+	kids := v.kids[:0:0]
+	for _, k := range v.kids {
+		if k.removed && !keep {
+			continue
+		}
+		kids = append(kids, k.strip(keep))
+	}
+	v.kids = kids
+	return v
+}
+
 func (v *mval) clone() *mval {
 	c := *v
 	c.kids = nil
@@ -549,6 +635,8 @@ func (v *mval) dump(path string, top bool, out *[]string) {
 		kind = "struct"
 	case v.gap:
 		kind = "gap"
+	case v.val != "":
+		kind = v.val
 	case v.isUint:
 		kind = fmt.Sprintf("u=%d", v.u)
 	}
@@ -587,7 +675,15 @@ func apiDumpReal(v *decode.Value, path string, top bool, out *[]string) {
 			kind = "array"
 		}
 	case *scalar.Uint:
-		kind = fmt.Sprintf("u=%d", vv.Actual)
+		kind = fmt.Sprintf("u=%d", vv.Actual) + symKind(vv.Sym, vv.Description)
+	case *scalar.Sint:
+		kind = fmt.Sprintf("s=%d", vv.Actual) + symKind(vv.Sym, vv.Description)
+	case *scalar.Bool:
+		kind = fmt.Sprintf("bool=%v", vv.Actual) + symKind(vv.Sym, vv.Description)
+	case *scalar.Flt:
+		kind = fltKind(vv.Actual) + symKind(vv.Sym, vv.Description)
+	case *scalar.Str:
+		kind = fmt.Sprintf("str=%x", vv.Actual) + symKind(vv.Sym, vv.Description)
 	default:
 		if isGap(v) {
 			kind = "gap"
@@ -620,13 +716,16 @@ func apiDumpReal(v *decode.Value, path string, top bool, out *[]string) {
 }
 
 func (n *apiNode) String() string {
+	if s, ok := n.opsString(); ok {
+		return s
+	}
 	var sb strings.Builder
 	sb.WriteString(n.Op)
 	if n.Name != "" {
 		sb.WriteString(" " + n.Name)
 	}
 	switch n.Op {
-	case "u", "raw", "framed", "limited", "skip", "loopu", "formatlen", "value":
+	case "u", "raw", "framed", "limited", "skip", "loopu", "formatlen", "value", "remove":
 		fmt.Fprintf(&sb, " %d", n.N)
 	case "range", "formatrange":
 		fmt.Fprintf(&sb, " %d+%d", n.P, n.N)
@@ -710,10 +809,19 @@ func apiExec(d *decode.D, ns []*apiNode) {
 			d.FieldFormatBitBuf(n.Name, bitio.NewBitReader(n.Buf, -1), apiGroup(n), nil)
 		case "structbuf":
 			d.FieldStructRootBitBufFn(n.Name, bitio.NewBitReader(n.Buf, -1), fn)
+		case "remove":
+			cs := d.Value.V.(*decode.Compound).Children
+			if int(n.N) >= len(cs)-1 {
+				apiMismatch("the array %s has %d elements, the program is about to remove element %d of at least %d", d.Value.Name, len(cs), n.N, n.N+2)
+			} else if err := cs[n.N].Remove(); err != nil {
+				d.Fatalf("Remove: %v", err)
+			}
 		case "fatal":
 			d.Fatalf("generated failure")
 		default:
-			panic("hapi: unknown op " + n.Op)
+			if !apiExecOp(d, n) {
+				panic("hapi: unknown op " + n.Op)
+			}
 		}
 	}
 }
@@ -722,8 +830,17 @@ func (*hapi) Run(rc *core.RunCtx) *core.RunResult {
 	res := core.NewResult()
 	t := rc.T
 	data := make([]byte, 1+t.Intn(40))
+	texty := t.Intn(3) == 0 // mostly printable bytes with terminators: text readers find something to read
 	for i := range data {
 		data[i] = byte(t.Intn(256))
+		if texty {
+			switch k := t.Intn(10); {
+			case k < 6:
+				data[i] = byte(0x20 + int(data[i])%0x5f)
+			case k < 8:
+				data[i] = 0
+			}
+		}
 	}
 	g := &apiGen{t: t, bufs: [][]byte{data}, gran: []int64{1, 1, 8, 8, 4}[t.Intn(5)], mayFail: t.Intn(3) == 0, probes: res.Probes}
 	top := &apiNode{Op: "top", RootArray: t.Intn(4) == 0}
@@ -738,9 +855,9 @@ func (*hapi) Run(rc *core.RunCtx) *core.RunResult {
 	}
 	what := fmt.Sprintf("program %s over %d bytes %x", prog, len(data), data)
 	root.fill, root.fillStart, root.fillLen = true, 0, total
-	strict := root.clone()
+	strict := root.clone().strip(false)
 	strict.finish(false)
-	tolerant := root.clone()
+	tolerant := root.clone().strip(false)
 	tolerant.finish(true)
 	var wantStrict, wantTol []string
 	strict.dump("", true, &wantStrict)
@@ -748,6 +865,16 @@ func (*hapi) Run(rc *core.RunCtx) *core.RunResult {
 	want := map[string]bool{}
 	for _, l := range wantTol {
 		want[l] = true
+	}
+	if g.removed {
+		// a partial tree may be from before the Remove: the numbering of then
+		before := root.clone().strip(true)
+		before.finish(true)
+		var ls []string
+		before.dump("", true, &ls)
+		for _, l := range ls {
+			want[l] = true
+		}
 	}
 	group := apiGroup(top)
 	res.Sample = map[string]any{"program": prog, "bytes": fmt.Sprintf("%x", data), "fails_by_design": !genOK}
@@ -800,11 +927,30 @@ func (*hapi) Run(rc *core.RunCtx) *core.RunResult {
 		return false
 	}
 
+	// what the program itself saw: a query answered differently from the reference's
+	// arithmetic, a Try reader that did not return the error it has to
+	observed := func(out *decOutcome, descr string) bool {
+		res.Probes["try_failure_moved_position"] += apiObs.tryMoved
+		res.Probes["try_failure_kept_position"] += apiObs.tryKept
+		if out.panicV != "" && strings.Contains(out.panicV, "nil pointer") && strings.Contains(out.stack, "decode.(*D).TryField") && !strings.Contains(out.stack, "decode.(*D).TryFieldScalar") {
+			res.Violate("C03", "try-reader-panics-instead-of-error", "TryField<reader>:nil-dereference", fmt.Sprintf("%s%s: a TryField<reader> method whose read failed did not return the error (doc/dev.md: a Try function returns the error instead of panicking) but dereferenced the nil scalar its TryFieldScalar<reader> returned: %s", what, descr, firstN(out.panicV, 200)))
+			return false
+		}
+		if len(apiObs.mismatch) > 0 {
+			res.Violate("C03", "differs-from-reference", "generated-decoder-query", fmt.Sprintf("%s%s: %s", what, descr, strings.Join(apiObs.mismatch, "; ")))
+			return false
+		}
+		return true
+	}
 	// (1) short reads only: the tree is the reference tree, the outcome is the reference outcome
 	for rep := 0; rep < 2; rep++ {
+		apiObs = apiObsT{}
 		out, _ := decodeOnceShort(t, data, group, 0, 0, 1+t.Intn(5))
 		res.Steps += out.calls
 		res.Extra["decodes"]++
+		if !observed(out, "") {
+			return res
+		}
 		checkOutcome(res, out, data, what, false, "generated", false)
 		onlyHole := true
 		for _, v := range res.Violations {
@@ -834,10 +980,14 @@ func (*hapi) Run(rc *core.RunCtx) *core.RunResult {
 	for k := 0; k < 6 && ref.calls > 0; k++ {
 		pk := 1 + t.Intn(4)
 		at := t.Intn(ref.calls)
+		apiObs = apiObsT{}
 		out, _ := decodeOnceShort(t, data, group, pk, at, 0)
 		res.Steps += out.calls
 		res.Faults[[]string{"", "abort_eio_transient", "abort_eio_persistent", "abort_eof", "abort_cancel"}[pk]]++
 		descr := fmt.Sprintf(", %s at disk call %d of %d", []string{"", "transient EIO", "persistent EIO", "early EOF", "cancel"}[pk], at, ref.calls)
+		if !observed(out, descr) {
+			return res
+		}
 		checkOutcome(res, out, data, what+descr, pk != 4, "generated", false)
 		if len(res.Violations) > 0 {
 			return res
